@@ -18,7 +18,10 @@ def handle (toks : List String) : Except String String :=
   | "C08.fromInt" :: sr :: rest => do
       let n ← Tok.run Tok.nat rest
       srFromInt sr n
-  | op :: _ => throw s!"unknown op {op}"
+  | op :: _ =>
+    match Scc.handle toks <|> Interp.handle toks with
+    | some r => r
+    | none => throw s!"unknown op {op}"
   | [] => throw "empty request"
 
 partial def loop (hin hout : IO.FS.Stream) : IO Unit := do
